@@ -676,6 +676,8 @@ type Gen struct {
 	recovered bool
 	sliceTerms []string // every slice-sorted term seen so far (for freshness of new backing arrays)
 	staticDead map[*ssa.BasicBlock]bool
+	fvBind     map[string]ssa.Value // while a literal's contract is applied at its call site: captured variable name -> its address in the caller
+	symPanicking *Term              // verifying a `recovers` function stand-alone: whether it runs because of a panic
 	arrBase  map[*ssa.Alloc]Term
 }
 
@@ -1564,6 +1566,9 @@ func (g *Gen) call0(c *ssa.CallCommon, res ssa.Value, st *State, pos token.Pos) 
 		}
 	}
 	if mc, ok := c.Value.(*ssa.MakeClosure); ok {
+		if g.callLiteralByContract(mc, c.Args, res, st, pos) {
+			return
+		}
 		g.inlineExec(mc, c.Args, st)
 		return
 	}
@@ -1588,6 +1593,13 @@ func (g *Gen) call0(c *ssa.CallCommon, res ssa.Value, st *State, pos token.Pos) 
 	}
 	switch name {
 	case "builtin:recover":
+		if g.symPanicking != nil && !g.panicking && g.inlining == 0 {
+			// this function is a deferred recoverer verified on its own: recover() is non-nil exactly when it runs because of a panic
+			r := w.fresh("recval", "Int")
+			w.assume(fmt.Sprintf("(= (not (= %s 0)) %s)", r.S, g.symPanicking.S))
+			setRes(r)
+			return
+		}
 		if g.panicking {
 			r := w.fresh("recval", "Int")
 			w.assume(fmt.Sprintf("(not (= %s 0))", r.S))
@@ -1963,11 +1975,40 @@ func (g *Gen) runDefers(st *State) {
 	for i := len(ds) - 1; i >= 0; i-- {
 		d := ds[i]
 		if mc, ok := d.Call.Value.(*ssa.MakeClosure); ok {
+			if g.callLiteralByContract(mc, d.Call.Args, nil, st, d.Pos()) {
+				continue
+			}
 			g.inlineExec(mc, d.Call.Args, st)
 			continue
 		}
 		g.call(&d.Call, nil, st, d.Pos())
 	}
+}
+
+// callLiteralByContract: a function literal that has its own contract (`Outer$n`) is used through it where it is called or
+// deferred (needed for literals with loops, which cannot be inlined). Names of captured variables in its clauses denote
+// the current contents of those variables in the caller.
+func (g *Gen) callLiteralByContract(mc *ssa.MakeClosure, args []ssa.Value, res ssa.Value, st *State, pos token.Pos) bool {
+	fn, ok := mc.Fn.(*ssa.Function)
+	if !ok {
+		return false
+	}
+	ctr := g.lookupContract(fn)
+	if ctr == nil {
+		return false
+	}
+	saved := g.fvBind
+	g.fvBind = map[string]ssa.Value{}
+	for i, fv := range fn.FreeVars {
+		g.fvBind[fv.Name()] = mc.Bindings[i]
+	}
+	var ats []Term
+	for _, a := range args {
+		ats = append(ats, g.val(a, st))
+	}
+	g.callWithContract(fn, ctr, ats, res, st, pos)
+	g.fvBind = saved
+	return true
 }
 
 // inlineExec runs the body of a loop-free function literal in the caller's state (free variables = captured cells).
@@ -2443,7 +2484,23 @@ func (g *Gen) checkEnsuresOn(st *State, pos token.Pos, suffix string) {
 	var results []Term
 	res := g.f.Signature.Results()
 	for i := 0; i < res.Len(); i++ {
-		results = append(results, g.w.zero(res.At(i).Type()))
+		// a recovered panic returns the current values of NAMED results (a deferred function may have set them), zero values otherwise
+		var cur *Term
+		if nm := res.At(i).Name(); nm != "" && nm != "_" {
+			for _, b := range g.f.Blocks {
+				for _, in := range b.Instrs {
+					if al, ok := in.(*ssa.Alloc); ok && al.Comment == nm && types.Identical(al.Type().Underlying().(*types.Pointer).Elem(), res.At(i).Type()) {
+						v := g.w.loadAddr(g.resolveAddr(al, st), st, res.At(i).Type())
+						cur = &v
+					}
+				}
+			}
+		}
+		if cur != nil {
+			results = append(results, *cur)
+		} else {
+			results = append(results, g.w.zero(res.At(i).Type()))
+		}
 	}
 	env := &SpecEnv{g: g, st: st, old: g.entry, fn: g.f, argOverride: map[string]Term{}, bound: map[string]Term{}, results: results, atReturn: true}
 	for _, e := range g.ctr.Ensures {
